@@ -123,7 +123,7 @@ PROPS['C01'] = dict(
     unchecked=['trees higher than 3', 'qtreetbl_put/get/remove string wrappers, putstrf, debug'],
 )
 PROPS['C02'] = dict(
-    technique='same closed-tree contracts with the LLRB representation invariant as pre- and postcondition (search order, black root, no red-red, equal black height, no lone right red), checker-vs-invariant equivalence on ALL coloured trees, comparison-count bound via a ghost counter',
+    technique='DFCC-enforced function contracts (requires/ensures/assigns, callee contracts replacing callee bodies) on the loop-free rotation/flip helpers; closed-tree contracts with the LLRB representation invariant as pre- and postcondition (search order, black root, no red-red, equal black height, no lone right red), checker-vs-invariant equivalence on ALL coloured trees, comparison-count bound via a ghost counter',
     text='After every put/remove/get (incl. removal of an absent key, replacement, allocation failure) on every tree of height <= 3 the real tree satisfies the full LLRB 2-3-4 invariant; qtreetbl_check() == 0 is shown equivalent to the red-black part of the invariant for EVERY coloured tree of height <= 3 (valid or not); a lookup is shown to call the comparator at most 2*bh times with 2^bh <= n+1.',
     design_ref='DESIGN.md section 3 C02',
     note='Bounded stand-in in tree height (<= 3). The inductive lemmas cnt >= 2^bh - 1 / height <= 2*bh are checked on the enumerated trees, not for arbitrary height.',
